@@ -120,10 +120,51 @@ func bMapping() mapping.IndexMapping {
 	return im
 }
 
+// bMappingMixed: two document types map the SAME field names, type "A" with doc
+// values and type "B" without; batches are homogeneous (the type follows the batch
+// number), so segments that hold the sort fields as doc values alternate with
+// segments that hold them in the inverted index only.
+func bMappingMixed() mapping.IndexMapping {
+	im := bleve.NewIndexMapping()
+	for _, t := range []struct {
+		name string
+		dv   bool
+	}{{"A", true}, {"B", false}} {
+		dm := bleve.NewDocumentStaticMapping()
+		kw := func() *mapping.FieldMapping {
+			f := bleve.NewTextFieldMapping()
+			f.Analyzer = keyword.Name
+			f.Store = false
+			f.IncludeInAll = false
+			f.IncludeTermVectors = false
+			f.DocValues = t.dv
+			return f
+		}
+		dm.AddFieldMappingsAt("f1", kw())
+		dm.AddFieldMappingsAt("f2", kw())
+		nf := bleve.NewNumericFieldMapping()
+		nf.Store = false
+		nf.IncludeInAll = false
+		nf.DocValues = t.dv
+		dm.AddFieldMappingsAt("f3", nf)
+		body := bleve.NewTextFieldMapping()
+		body.Analyzer = simple.Name
+		body.Store = false
+		body.IncludeInAll = false
+		dm.AddFieldMappingsAt("body", body)
+		im.AddDocumentMapping(t.name, dm)
+	}
+	im.TypeField = "kind"
+	im.DefaultType = "A"
+	return im
+}
+
 func buildIndex(rec BIndex) (bleve.Index, map[int]BDoc, error) {
 	var idx bleve.Index
 	var err error
 	switch rec.Kind {
+	case "scorch-mixed-dv":
+		idx, err = bleve.NewUsing("", bMappingMixed(), scorch.Name, scorch.Name, nil)
 	case "scorch":
 		idx, err = bleve.NewUsing("", bMapping(), scorch.Name, scorch.Name, nil)
 	case "upsidedown":
@@ -135,14 +176,18 @@ func buildIndex(rec BIndex) (bleve.Index, map[int]BDoc, error) {
 		return nil, nil, err
 	}
 	live := map[int]BDoc{}
-	for _, ops := range rec.Batches {
+	for bi, ops := range rec.Batches {
 		b := idx.NewBatch()
 		for _, op := range ops {
 			if op.Del {
 				b.Delete(idString(op.Doc.ID))
 				delete(live, op.Doc.ID)
 			} else {
-				if err := b.Index(idString(op.Doc.ID), op.Doc.fields()); err != nil {
+				fields := op.Doc.fields()
+				if rec.Kind == "scorch-mixed-dv" {
+					fields["kind"] = []string{"A", "B"}[bi%2]
+				}
+				if err := b.Index(idString(op.Doc.ID), fields); err != nil {
 					idx.Close()
 					return nil, nil, err
 				}
@@ -608,10 +653,10 @@ func engineB(c *core.Ctx) error {
 		kind  string
 		ndocs int
 	}
-	plans := []plan{{"scorch", 14}, {"scorch", 33}, {"upsidedown", 26}}
+	plans := []plan{{"scorch", 14}, {"scorch", 33}, {"upsidedown", 26}, {"scorch-mixed-dv", 24}}
 	if c.Thorough() {
 		plans = []plan{{"scorch", 9}, {"scorch", 14}, {"scorch", 23}, {"scorch", 33}, {"scorch", 40}, {"scorch", 31},
-			{"upsidedown", 12}, {"upsidedown", 26}, {"upsidedown", 37}}
+			{"upsidedown", 12}, {"upsidedown", 26}, {"upsidedown", 37}, {"scorch-mixed-dv", 16}, {"scorch-mixed-dv", 24}, {"scorch-mixed-dv", 36}}
 	}
 	perQuery := c.Pick(45, 100)
 
